@@ -29,6 +29,7 @@ TagForms == {
   [raw |-> "99999999999999999999", has |-> TRUE, pt |-> PT("bad", 0, "")],
   [raw |-> "+2", has |-> TRUE, pt |-> PT("index", 2, "")],
   [raw |-> "300", has |-> TRUE, pt |-> PT("index", 300, "")] }
+DupIndexes == {0, 1, 5, 31, 32, 63, 64, 65, 127, 128, 300}
 Sup == {[k |-> "bool"], [k |-> "int", w |-> 32], [k |-> "int", w |-> 64], [k |-> "uint", w |-> 8], [k |-> "f32"], [k |-> "f64"],
         [k |-> "string"], [k |-> "bytes"], [k |-> "time"]}
 Unsup == {[k |-> "unsup", g |-> x] : x \in {"complex64", "complex128", "array", "chan", "func", "iface", "uintptr", "unsafeptr"}}
@@ -61,19 +62,20 @@ At(p, K) ==
 Names == {[n |-> "A", x |-> TRUE], [n |-> "a", x |-> FALSE], [n |-> "NAlower1", x |-> FALSE], [n |-> "NAupper1", x |-> TRUE]}
 VARIABLES st, c
 vars == <<st, c>>
-Init == st = "pos" /\ c = [pos |-> "", K |-> [k |-> "bool"], tf |-> CHOOSE x \in TagForms : TRUE, exp |-> [n |-> "A", x |-> TRUE], K2 |-> [k |-> "bool"]]
+Init == st = "pos" /\ c = [pos |-> "", K |-> [k |-> "bool"], tf |-> CHOOSE x \in TagForms : TRUE, exp |-> [n |-> "A", x |-> TRUE], K2 |-> [k |-> "bool"], di |-> 5]
 Next ==
   \/ st = "pos" /\ \E p \in Positions \cup {"dup"} : c' = [c EXCEPT !.pos = p] /\ st' = "kind"
   \/ st = "kind" /\ \E K \in FieldKinds : (c.pos = "mapkey" => Comparable(K)) /\ (c.pos \in {"slice", "slice2"} => ~(K.k = "uint" /\ K.w = 8))
                     /\ c' = [c EXCEPT !.K = K] /\ st' = IF c.pos = "dup" THEN "k2" ELSE IF c.pos = "top" THEN "done" ELSE "tag"
-  \/ st = "k2" /\ \E K \in Sup : c' = [c EXCEPT !.K2 = K] /\ st' = "done"
+  \/ st = "k2" /\ \E K \in Sup : c' = [c EXCEPT !.K2 = K] /\ st' = "dupi"
+  \/ st = "dupi" /\ \E i \in DupIndexes : c' = [c EXCEPT !.di = i] /\ st' = "done"       \* the shared index: small, at word-size boundaries, large
   \/ st = "tag" /\ \E tf \in TagForms : c' = [c EXCEPT !.tf = tf] /\ st' = "exp"
   \/ st = "exp" /\ \E e \in Names : c' = [c EXCEPT !.exp = e] /\ st' = "done"
 Spec == Init /\ [][Next]_vars
 
 Done == st = "done"
 Def == IF c.pos = "top" THEN c.K
-       ELSE IF c.pos = "dup" THEN St(<<OkFd("A", 5, c.K), OkFd("Z", 9, IntT), OkFd("B", 5, c.K2)>>)
+       ELSE IF c.pos = "dup" THEN St(<<OkFd("A", c.di, c.K), OkFd("Z", 9, IntT), OkFd("B", c.di, c.K2)>>)
        ELSE St(<<Fd(c.exp.n, c.exp.x, c.tf, At(c.pos, c.K)), OkFd("Z", 9, IntT)>>)
 Cls == Classify(Def)
 
